@@ -48,7 +48,9 @@ def lifecycle_histories(rng, tier):
             thirds = ["close"] + (USES if tier != "quick" else rng.sample(USES, 3))
             for k3 in thirds:
                 abi = rng.choice("pu")
-                calls = list(opens) + [{"call": "close", "abi": abi, "fd": x}, use(k1, x, rng.choice("pu"))]
+                # a directory descriptor that has been listed owns a directory stream as well as a native descriptor
+                pre = [{"call": "readdir", "abi": rng.choice("pu"), "fd": x, "buflen": 256, "cookie": 0}] if x in (5, 3) and rng.random() < 0.6 else []
+                calls = list(opens) + pre + [{"call": "close", "abi": abi, "fd": x}, use(k1, x, rng.choice("pu"))]
                 calls.append({"call": "close", "abi": abi, "fd": x} if k3 == "close" else use(k3, x, rng.choice("pu")))
                 # descriptors opened afterwards must not alias anything live
                 calls.append({"call": "open", "abi": "p", "dirfd": 3 if x != 3 else 5, "path": "a" if x != 3 else "c", "abs": False, "oflags": 1, "rd": True, "wr": True, "app": False})
